@@ -1,6 +1,7 @@
 import DadiVerif.Model.Proto
 import DadiVerif.Model.Fold
-/- driver ops for C09 (fold / unfold / their input afterwards / reverse / misid / arithmetic templates / slicing / autofold).
+/- driver ops for C09 (fold / unfold / their input afterwards / reverse / misid / arithmetic templates and what an in-place
+   template leaves in `self` / slicing / unary operations / the hook sequences / autofold).
 
    spectrum on the wire = 4 tokens:  <shape:data> <maskbits 0101…> <folded 0|1> <popids>
       popids: `-` = None, `ids:a,b` = ['a','b']
@@ -92,6 +93,23 @@ def handle (toks : List String) : Option String :=
       let S ← parseSpec nd bits f ids
       let o ← parseOperand rest
       some (showRes (inplace name S o))
+  | "c09.inplaceself" :: name :: nd :: bits :: f :: ids :: rest => do
+      let S ← parseSpec nd bits f ids
+      let o ← parseOperand rest
+      match inplaceSelfAfter name S o with
+      | some A => some ("ok " ++ showSpec A)
+      | none => some "err undefined"
+  | ["c09.unary", op, nd, bits, f, ids] => do
+      let op ← UnaryOp.ofString op
+      let S ← parseSpec nd bits f ids
+      some (showRes (unarySpec op S))
+  | ["c09.hooks", kind] =>
+      let k? : Option ViewKind := match kind with
+        | "slice" => some .slice | "ufunc" => some .ufunc | "copy" => some .copy | "deepcopy" => some .deepcopy
+        | "view" => some .view | "log" => some .log | _ => none
+      match k? with
+      | some k => some ("ok " ++ ",".intercalate ((hooksOf k).map Hook.show))
+      | none => some "err unknown-kind"
   | ["c09.slice", sel, nd, bits, f, ids] => do
       let sel ← parseSel sel
       let S ← parseSpec nd bits f ids
@@ -107,6 +125,9 @@ def handle (toks : List String) : Option String :=
   | ["c09.methods"] =>
       some ("ok " ++ ",".intercalate Gen.Fold.binaryMethods ++ " " ++ ",".intercalate Gen.Fold.inplaceMethods
             ++ " " ++ ",".intercalate Gen.Fold.autofoldFunctions)
+  | ["c09.programs"] =>
+      some ("ok " ++ toString Gen.Fold.binaryProgram.length ++ " " ++ toString Gen.Fold.inplaceProgram.length
+            ++ " " ++ ",".intercalate Gen.Fold.fold_programDefs ++ " " ++ ",".intercalate Gen.Fold.unfold_programDefs)
   | ["c09.family"] =>
       some ("ok " ++ ",".intercalate Gen.Fold.likelihoodFamily ++ " " ++ toString Gen.Fold.likelihoodStoresIntoArgs.length)
   | _ => none
